@@ -230,7 +230,9 @@ func (mm *monoMon) step(cx *clusterRun) {
 				if !(prev.State == StateDead || prev.State == StateLeft) || now.Sub(prev.Change) <= mm.gtd {
 					cx.c.Violate("record-vanished", "", n.name, "%s: record of %s (%s, changed %v ago) disappeared", n.name, k.who, prev, now.Sub(prev.Change))
 				}
-				if since, ok := mm.deadSince[k]; ok && !prev.Change.IsZero() && (prev.State == StateDead || prev.State == StateLeft) && now.Sub(since) <= mm.gtd {
+				if since, ok := mm.deadSince[k]; ok && !prev.Change.IsZero() && (prev.State == StateDead || prev.State == StateLeft) && now.Sub(since)+50*time.Millisecond <= mm.gtd {
+					// (50 ms: the monitor first sees the new state at the end of the scheduler step that made it; a
+					// slow or descheduled callback inside that step lets a little virtual time pass in between)
 					// the tombstone is what keeps alive messages no newer than the death/departure from
 					// bringing the member back; it must be retained for GossipToTheDeadTime
 					cx.c.Violate("record-vanished", "", n.name, "%s: tombstone of %s (%s) was reaped %v after the member was recorded dead/left; retention (GossipToTheDeadTime) is %v", n.name, k.who, prev, now.Sub(since), mm.gtd)
